@@ -11,6 +11,12 @@ Suites
                  printf (pairs of token sequences), plural (with the Localization_and_Plurals
                  comment, every locale of the table), select (branch selection), escape
                  (backslash escapes and U+FFFD)
+  COMPARE-E2E    END TO END: ContentComparer().compare(File(ref), File(l10n, locale=L), None) with an
+                 Observer on real .properties files in a temporary directory (removed afterwards):
+                 entries over the token alphabet with IDs in eight styles (plain, containing key/Key,
+                 accesskey/commandkey-like), a third of them verbatim copies of the reference, printf
+                 and plural-documented, locales with 1..6 plural forms; every entry the model flags
+                 must be reported with its key, line and column, and nothing else
 Oracle (implementation only): an independent positional-argument model computed from the
 token lists (never from the rendered text): expected (severity, position, category) lists.
 """
@@ -669,6 +675,156 @@ def suite_escape(chk, model):
     run_pairs(chk, model, "PROPS-CHECK-escape", cases, oracle)
 
 
+# ------------------------------------------------------------ end to end ---
+E2E_LOCALES = ["ja", "de", "fr", "ru", "sl", "ga-IE", "ar", "en-GB", "xx", None]
+ID_STYLES = ["msg%d", "hotkey%dError", "open%dKeyFailed", "monkey%d.message", "item%d.accesskey",
+             "cmd%d.commandkey", "tab%d.label", "Key%d"]
+E2E_COMMENT = ("# LOCALIZATION NOTE: Semi-colon list of plural forms.\n"
+               "# See: http://developer.mozilla.org/en/docs/Localization_and_Plurals")
+
+
+def e2e_entries(rng, n_printf, n_plural):
+    """(ref tokens, l10n tokens, plural?) with clean token lists; a third are verbatim copies"""
+    core = [s_ for s_ in sequences(CORE + MORE[:3], 2) if clean(s_)]
+    withargs = [s_ for s_ in core if arg_model(s_)[0] == "ok" and arg_model(s_)[1]]
+    out = []
+    for i in range(n_printf):
+        r = rng.choice(withargs if i % 4 else core)
+        l = r if i % 3 == 0 else rng.choice(core)
+        out.append((r, l, False))
+    pl = [s_ for s_ in sequences(PLURAL_ALPHABET, 3) if plural_clean(s_)]
+    forms = [tuple([text("#1")] + [text(";"), text("#1")] * n) for n in range(6)]
+    for i in range(n_plural):
+        r = rng.choice(forms) if i % 2 else rng.choice(pl)
+        l = r if i % 3 == 0 else (rng.choice(forms) if i % 5 == 0 else rng.choice(pl))
+        out.append((r, l, True))
+    rng.shuffle(out)
+    return out
+
+
+def run_compare_e2e(tmp, locale, entries):
+    """entries: [(key, ref text, l10n text, plural?)] -> (reports [(severity, text)], stats, entities)"""
+    import os
+    from compare_locales.compare import ContentComparer, Observer
+    from compare_locales.paths import File
+    from compare_locales import parser
+    refpath = os.path.join(tmp, "en-US", "foo.properties")
+    l10npath = os.path.join(tmp, str(locale), "foo.properties")
+    reftext = "".join((E2E_COMMENT + "\n" if pl else "") + f"{k} = {r}\n" for k, r, _, pl in entries)
+    l10ntext = "".join(f"{k} = {l}\n" for k, _, l, _ in entries)
+    for path, txt in ((refpath, reftext), (l10npath, l10ntext)):
+        os.makedirs(os.path.dirname(path), exist_ok=True)
+        with open(path, "w", encoding="utf-8", newline="\n") as f:
+            f.write(txt)
+    cc = ContentComparer()
+    obs = Observer()
+    cc.observers.append(obs)
+    l10nfile = File(l10npath, "foo.properties", locale=locale)
+    cc.compare(File(refpath, "foo.properties"), l10nfile, None)
+    reports = []
+    for item in obs.details[l10nfile]:
+        for tp, txt in item.items():
+            reports.append((tp, txt))
+    ents = []
+    for txt in (reftext, l10ntext):
+        pp = parser.getParser("foo.properties")
+        pp.readUnicode(txt)
+        ents.append([e for e in pp.walk() if isinstance(e, parser.Entity)])
+    return reports, dict(obs.summary[locale]), ents
+
+
+def suite_compare(chk, model):
+    """END TO END: ContentComparer.compare on real files in a temporary directory; every entry
+    the positional-argument / plural model flags must be reported with its key, nothing else,
+    whatever the ID looks like and whether or not the value is a verbatim copy"""
+    import re as _re
+    import shutil
+    import tempfile
+    rng = chk.rng
+    tmp = tempfile.mkdtemp(prefix="verif_c06_")
+    cases, impl, reqs, want_lines = [], [], [], []
+    try:
+        locs = E2E_LOCALES + (locales_of_table()[::6] if chk.thorough else [])
+        for loc in locs:
+            toks = e2e_entries(rng, chk.n(36, 150), chk.n(36, 150))
+            entries = [(ID_STYLES[i % len(ID_STYLES)] % i, render(r), render(l), pl)
+                       for i, (r, l, pl) in enumerate(toks)]
+            reports, stats, (rents, lents) = run_compare_e2e(tmp, loc, entries)
+            if len(rents) != len(entries) or len(lents) != len(entries):
+                raise RuntimeError("harness: generated files did not parse into their entries")
+            by_key, stray = {}, []
+            for tp, txt in reports:
+                mm = _re.match(r"(.*) at line (\d+), column (\d+) for (.*)$", txt, _re.S)
+                if tp in ("error", "warning") and mm:
+                    by_key.setdefault(mm.group(4), []).append((tp, mm.group(1), int(mm.group(2)),
+                                                               int(mm.group(3))))
+                else:
+                    stray.append((tp, txt))
+            if stray:
+                chk.fail("compare-e2e", {"suite": "COMPARE-E2E", "locale": loc, "stray": stray[:5]},
+                         "reports that are not per-entity check findings (all keys are in both files)")
+            nkeys = sum(1 for k, _, _, _ in entries if "key" in k or "Key" in k)
+            same = sum(1 for k, r, l, _ in entries if r == l and not ("key" in k or "Key" in k))
+            if (stats.get("keys"), stats.get("unchanged"), stats.get("changed")) != \
+                    (nkeys, same, len(entries) - nkeys - same):
+                chk.fail("compare-e2e-stats", {"suite": "COMPARE-E2E", "locale": loc},
+                         {"stats": stats, "expected_keys": nkeys, "expected_unchanged": same})
+            for i, ((rt, lt, pl), (key, rtxt, ltxt, _)) in enumerate(zip(toks, entries)):
+                got = by_key.get(key, [])
+                exp = expected_plural(rt, lt, nforms(loc)) if pl else expected_printf(rt, lt)
+                sev = [(tp, line, col - len(key) - 4) for tp, _, line, col in got]
+                if exp == "error":
+                    okay = sev[:1] == [("error", i + 1, 0)] and sev[1:] in ([], [("warning", i + 1, 0)])
+                else:
+                    okay = sev == [(s_, i + 1, p_) for s_, p_, _ in exp]
+                chk.count(("e2e", loc, key, rtxt, ltxt, pl))
+                chk.hist("e2e_id_style", ID_STYLES[i % len(ID_STYLES)] + (" copy" if rtxt == ltxt else ""))
+                if not okay:
+                    chk.fail("compare-e2e",
+                             {"suite": "COMPARE-E2E", "locale": loc, "key": key, "reference": rtxt,
+                              "l10n": ltxt, "plural_comment": pl, "ref_tokens": rt, "l10n_tokens": lt},
+                             {"reported": got, "expected": exp,
+                              "note": "expected (severity, line, offset in value) by construction"})
+                cases.append((loc, key, rtxt, ltxt, pl))
+                impl.append([[canon(tp), canon(m_), line, col] for tp, m_, line, col in got])
+                reqs.append((0, payload(rents[i], lents[i], loc)))
+                want_lines.append((i + 1, len(key) + 4))
+    finally:
+        shutil.rmtree(tmp, ignore_errors=True)
+    chk.sample({"suite": "COMPARE-E2E", "case": cases[7], "reported": by_key.get(cases[7][1], [])}, cap=14)
+    if model:
+        outs = model.call(reqs)
+        mouts = []
+        for o, (line, col0) in zip(outs, want_lines):
+            if o[0] != 0:
+                mouts.append(o)
+            else:
+                mouts.append([[f[0], f[3], line, col0 + f[1]] for f in o[1]])
+        chk.correspond("COMPARE-E2E (reports of ContentComparer.compare vs model findings)",
+                       cases, impl, mouts)
+
+
+def e2e_single(c):
+    """re-run one end-to-end case of a replay file"""
+    import shutil
+    import tempfile
+    tmp = tempfile.mkdtemp(prefix="verif_c06_")
+    try:
+        reports, _, _ = run_compare_e2e(tmp, c.get("locale"),
+                                        [(c["key"], c["reference"], c["l10n"], c["plural_comment"])])
+    finally:
+        shutil.rmtree(tmp, ignore_errors=True)
+    rt = tuple(tuple(t) for t in c["ref_tokens"])
+    lt = tuple(tuple(t) for t in c["l10n_tokens"])
+    exp = expected_plural(rt, lt, nforms(c.get("locale"))) if c["plural_comment"] else expected_printf(rt, lt)
+    sev = [tp for tp, _ in reports if tp in ("error", "warning")]
+    if exp == "error":
+        okay = sev[:1] == ["error"] and sev[1:] in ([], ["warning"])
+    else:
+        okay = sev == [s_ for s_, _, _ in exp]
+    return reports, exp, okay
+
+
 def suite_corpus(chk, model):
     """hand-written cases of corpus/C06 (run first)"""
     import glob
@@ -700,6 +856,7 @@ def suite_corpus(chk, model):
 def run(chk, runner_ok):
     model = Model("C06") if runner_ok else None
     suite_corpus(chk, model)
+    suite_compare(chk, model)
     if runner_ok:
         rxsuite.run_rx(chk, groups=["c06"], per_regex=chk.n(60, 400))
     suite_difflib(chk, model)
@@ -725,6 +882,12 @@ def replay(chk, path):
             import difflib
             print("difflib", c, difflib.SequenceMatcher(None, c["a"], c["b"]).get_opcodes())
             rc = 1
+            continue
+        if c.get("suite") == "COMPARE-E2E" and "key" in c:
+            reports, exp, okay = e2e_single(c)
+            print("case", c, "\n  reports", reports, "\n  expected", exp,
+                  "\n  ->", "passes now" if okay else "STILL FAILS")
+            rc |= not okay
             continue
         if "reference" not in c:
             print("case", c, f.get("detail"))
